@@ -5,6 +5,12 @@
 // Input field: (ids (a <bytes>) (b <bytes>) ...) - the "a" items in order are rd1, the "b" items rd2.
 // Generator kinds starting with "f7" contain a part that occurs in two entries of ONE input list
 // (finding F7); all other kinds produce lists without such a part.
+//
+// Chained merges (round 3): with "c" items there is a third list rd3 and the observation also holds
+// (chl ...) = merge(merged(rd1, rd2), rd3), (bc ...) = merge(rd2, rd3), (chr ...) = merge(rd1, merged(rd2, rd3)), each with
+// the fields of a single merge.  The intermediate lists are the very slices the first calls returned.  Every call gets
+// its arguments uncopied; (inputs b) tells whether they still equal the copies taken before the call, (stable b) whether
+// the results of the earlier calls still read the same after the later calls.
 package main
 
 import (
@@ -26,30 +32,133 @@ func unstr(x Sx) string {
 	return string(b)
 }
 
-func observe(f func([]string, []string) (map[string]c16.MergedIndex, []string), rd1, rd2 []string) Sx {
+type mergeFn func([]string, []string) (map[string]c16.MergedIndex, []string)
+
+func serialise(idx map[string]c16.MergedIndex, merged []string) Sx {
+	keys := make([]string, 0, len(idx))
+	for k := range idx {
+		keys = append(keys, k)
+	}
+	sort.Strings(keys)
+	es := make([]Sx, len(keys))
+	for i, k := range keys {
+		mi := idx[k]
+		es[i] = L(str(k), I(mi.Final), I(mi.First), I(mi.Second))
+	}
+	ms := make([]Sx, len(merged))
+	for i, m := range merged {
+		ms[i] = str(m)
+	}
+	return T("ok", T("idx", es...), T("merged", ms...))
+}
+
+func observe(f mergeFn, rd1, rd2 []string) Sx {
 	var res Sx
 	_, p := Catch(func() {
 		idx, merged := f(append([]string{}, rd1...), append([]string{}, rd2...))
-		keys := make([]string, 0, len(idx))
-		for k := range idx {
-			keys = append(keys, k)
-		}
-		sort.Strings(keys)
-		es := make([]Sx, len(keys))
-		for i, k := range keys {
-			mi := idx[k]
-			es[i] = L(str(k), I(mi.Final), I(mi.First), I(mi.Second))
-		}
-		ms := make([]Sx, len(merged))
-		for i, m := range merged {
-			ms[i] = str(m)
-		}
-		res = T("ok", T("idx", es...), T("merged", ms...))
+		res = serialise(idx, merged)
 	})
 	if p {
 		return T("panic")
 	}
 	return res
+}
+
+// result of one call on uncopied arguments
+type callRes struct {
+	idx      map[string]c16.MergedIndex
+	merged   []string
+	panicked bool
+	first    string
+	inputs   bool // the arguments still equal their copies
+}
+
+func sameStrings(a, b []string) bool {
+	if len(a) != len(b) {
+		return false
+	}
+	for i := range a {
+		if a[i] != b[i] {
+			return false
+		}
+	}
+	return true
+}
+
+func call(f mergeFn, rd1, rd2 []string) *callRes {
+	r := &callRes{}
+	c1, c2 := append([]string{}, rd1...), append([]string{}, rd2...)
+	_, r.panicked = Catch(func() { r.idx, r.merged = f(rd1, rd2) })
+	r.inputs = sameStrings(c1, rd1) && sameStrings(c2, rd2)
+	if !r.panicked {
+		r.first = serialise(r.idx, r.merged).String()
+	}
+	return r
+}
+
+func (r *callRes) sx() Sx {
+	if r.panicked {
+		return T("panic")
+	}
+	return serialise(r.idx, r.merged)
+}
+
+// mergeObs observes one pair of lists the way emit does: three runs of the identity merge on copies (they must agree), the
+// literal merge, and one run of each on the uncopied arguments.
+func mergeObs(rd1, rd2 []string) ([]Sx, *callRes, *callRes) {
+	first := observe(c16.MergeReversedDictsIdentities, rd1, rd2)
+	agree := true
+	for k := 0; k < 2; k++ {
+		if observe(c16.MergeReversedDictsIdentities, rd1, rd2).String() != first.String() {
+			agree = false
+		}
+	}
+	ri := call(c16.MergeReversedDictsIdentities, rd1, rd2)
+	if ri.panicked != (first.Tag() == "panic") || (!ri.panicked && ri.first != first.String()) {
+		agree = false
+	}
+	rl := call(c16.MergeReversedDictsLiteral, rd1, rd2)
+	return []Sx{T("ident", first), T("agree", B(agree)), T("lit", rl.sx()), T("inputs", B(ri.inputs && rl.inputs))}, ri, rl
+}
+
+func emitChain(c *Config, kind string, rd1, rd2, rd3 []string) {
+	if !disjoint(rd1) || !disjoint(rd2) || !disjoint(rd3) {
+		kind = "f7-" + strings.TrimPrefix(strings.TrimPrefix(kind, "f7-"), "dom-")
+	}
+	var ids []Sx
+	for _, s := range rd1 {
+		ids = append(ids, T("a", str(s)))
+	}
+	for _, s := range rd2 {
+		ids = append(ids, T("b", str(s)))
+	}
+	for _, s := range rd3 {
+		ids = append(ids, T("c", str(s)))
+	}
+	ab, abI, abL := mergeObs(rd1, rd2)
+	obs := append([]Sx{}, ab...)
+	held := []*callRes{abI, abL}
+	if !abI.panicked {
+		chl, i2, l2 := mergeObs(abI.merged, rd3)
+		obs = append(obs, T("chl", chl...))
+		held = append(held, i2, l2)
+	}
+	bc, bcI, bcL := mergeObs(rd2, rd3)
+	obs = append(obs, T("bc", bc...))
+	held = append(held, bcI, bcL)
+	if !bcI.panicked {
+		chr, i2, l2 := mergeObs(rd1, bcI.merged)
+		obs = append(obs, T("chr", chr...))
+		held = append(held, i2, l2)
+	}
+	stable := true
+	for _, h := range held {
+		if !h.panicked && serialise(h.idx, h.merged).String() != h.first {
+			stable = false
+		}
+	}
+	obs = append(obs, T("stable", B(stable)))
+	c.Emit(T("kind", A(kind)), T("nt", B(len(rd1)+len(rd2)+len(rd3) >= 3)), T("chain", I(1)), T("ids", ids...), T("obs", obs...))
 }
 
 // disjoint tells whether no part occurs in two different entries of the list.
@@ -96,16 +205,9 @@ func emit(c *Config, kind string, rd1, rd2 []string) {
 			}
 		}
 	}
-	first := observe(c16.MergeReversedDictsIdentities, rd1, rd2)
-	agree := true
-	for k := 0; k < 2; k++ { // Go randomises map iteration: a dependence on it shows up as differing answers
-		if observe(c16.MergeReversedDictsIdentities, rd1, rd2).String() != first.String() {
-			agree = false
-		}
-	}
-	lit := observe(c16.MergeReversedDictsLiteral, rd1, rd2)
-	c.Emit(T("kind", A(kind)), T("nt", B(shared && len(rd1)+len(rd2) >= 2)), T("ids", ids...),
-		T("obs", T("ident", first), T("agree", B(agree)), T("lit", lit)))
+	// Go randomises map iteration: a dependence on it shows up as differing answers (agree)
+	obs, _, _ := mergeObs(rd1, rd2)
+	c.Emit(T("kind", A(kind)), T("nt", B(shared && len(rd1)+len(rd2) >= 2)), T("ids", ids...), T("obs", obs...))
 }
 
 // ---- generators ----
@@ -224,17 +326,24 @@ func main() {
 		for _, cs := range c.ReplayCases() {
 			kind, _ := cs.Field("kind")
 			ids, _ := cs.Field("ids")
-			var rd1, rd2 []string
+			var rd1, rd2, rd3 []string
 			for _, x := range ids.Args() {
-				if x.Tag() == "a" {
+				switch x.Tag() {
+				case "a":
 					rd1 = append(rd1, unstr(x.Args()[0]))
-				} else {
+				case "c":
+					rd3 = append(rd3, unstr(x.Args()[0]))
+				default:
 					rd2 = append(rd2, unstr(x.Args()[0]))
 				}
 			}
 			k := "replay"
 			if len(kind.Args()) > 0 {
 				k = kind.Args()[0].Atom
+			}
+			if _, ok := cs.Field("chain"); ok {
+				emitChain(c, k, rd1, rd2, rd3)
+				continue
 			}
 			emit(c, k, rd1, rd2)
 		}
@@ -275,6 +384,8 @@ func main() {
 	}
 	// 4. large lists
 	scaleMerges(c)
+	// 4b. chained merges: (A+B)+C and A+(B+C)
+	chainMerges(c, dl)
 	// 5. random
 	n := c.Count(6000, 80000)
 	for i := 0; i < n; i++ {
@@ -335,5 +446,94 @@ func main() {
 				emit(c, "f7-rand", randomAny(c, np, 5), randomDisjoint(c, np, 5))
 			}
 		}
+	}
+}
+
+// chainMerges: three lists, merged as (A+B)+C and A+(B+C); the intermediate result is the slice the first call returned.
+func chainMerges(c *Config, dl [][]string) {
+	// every triple of lists of pairwise disjoint entries over 3 parts (a name, an e-mail, the empty string)
+	d3 := disjointLists([]string{"a", "x@", ""})
+	// (quick: a quarter of them)
+	for i, l1 := range d3 {
+		for j, l2 := range d3 {
+			for k, l3 := range d3 {
+				if c.Thorough() || (i+j+k)%4 == 0 {
+					emitChain(c, "dom-chain3-exh", l1, l2, l3)
+				}
+			}
+		}
+	}
+	n := c.Count(2000, 40000)
+	for i := 0; i < n; i++ {
+		switch c.Rng.Intn(5) {
+		case 0: // lists over 4 parts from the exhaustive family
+			emitChain(c, "dom-chain3-small", dl[c.Rng.Intn(len(dl))], dl[c.Rng.Intn(len(dl))], dl[c.Rng.Intn(len(dl))])
+		case 1: // a chain p0-p1-p2-... dealt to the three lists
+			k := 3 + c.Rng.Intn(10)
+			ls := make([][]string, 3)
+			for j := 0; j < k; j++ {
+				e := fmt.Sprintf("p%d|p%d", j, j+1)
+				if c.Rng.Intn(6) == 0 {
+					e = fmt.Sprintf("p%d|m%d@x|p%d", j+1, j, j)
+				}
+				w := j % 3
+				if c.Rng.Intn(4) == 0 {
+					w = c.Rng.Intn(3)
+				}
+				ls[w] = append(ls[w], e)
+			}
+			for w := range ls {
+				if !disjoint(ls[w]) {
+					// two neighbours of the chain in one list share a part: keep every other one
+					var keep []string
+					for q, e := range ls[w] {
+						if q%2 == 0 {
+							keep = append(keep, e)
+						}
+					}
+					ls[w] = keep
+				}
+				if c.Rng.Intn(2) == 0 {
+					ls[w] = shuffled(c, ls[w])
+				}
+			}
+			emitChain(c, "dom-chain3-chain", ls[0], ls[1], ls[2])
+		case 2: // the third list brings new identities only / only known ones / is empty
+			np := 4 + c.Rng.Intn(len(pool)-3)
+			l1, l2 := randomDisjoint(c, np, 6), randomDisjoint(c, np, 6)
+			var l3 []string
+			switch c.Rng.Intn(3) {
+			case 0:
+				for _, s := range randomDisjoint(c, np, 5) {
+					l3 = append(l3, strings.ReplaceAll(s, "|", "3|")+"3")
+				}
+			case 1:
+				l3 = shuffled(c, l1)
+			}
+			emitChain(c, "dom-chain3-new", l1, l2, l3)
+		case 3: // parts shared inside one list: the F7 stream
+			np := 3 + c.Rng.Intn(6)
+			emitChain(c, "f7-chain3", randomAny(c, np, 4), randomDisjoint(c, np, 4), randomAny(c, np, 4))
+		default:
+			np := 4 + c.Rng.Intn(len(pool)-3)
+			emitChain(c, "dom-chain3-rand", randomDisjoint(c, np, 7), randomDisjoint(c, np, 7), randomDisjoint(c, np, 7))
+		}
+	}
+	// large: 1000 (thorough 10^4, 10^5) identities per list, permuted copies / a chain through the three lists
+	sizes := []int{300, 1000}
+	if c.Thorough() {
+		sizes = append(sizes, 10000, 100000)
+	}
+	for _, n := range sizes {
+		var l []string
+		for i := 0; i < n; i++ {
+			l = append(l, fmt.Sprintf("name %d|n%d@x", i, i))
+		}
+		emitChain(c, "dom-chain3-scale", l, shuffled(c, l), shuffled(c, l)[:n/2])
+		ls := make([][]string, 3)
+		for j := 0; j < n; j++ {
+			ls[j%3] = append(ls[j%3], fmt.Sprintf("p%d|p%d", j, j+1))
+		}
+		emitChain(c, "dom-chain3-scale", shuffled(c, ls[0]), ls[1], shuffled(c, ls[2]))
 	}
 }
